@@ -7,6 +7,7 @@ import (
 	"os"
 	"path/filepath"
 	"sort"
+	"strconv"
 	"strings"
 	"sync"
 	"time"
@@ -31,15 +32,15 @@ func digestRun(cfg *propCfg, b *build, tier string, seed uint64, procs, maxcases
 // process or a new one - always gives the same bytes"; a difference only in the schedule
 // hash means the simulator is not deterministic (infrastructure, exit 2).
 func crossProcessDeterminism(cfg *propCfg, b *build, tier string, seed uint64, maxcases int) (*violation, map[string]int64) {
-	v, st, _ := crossProcessDeterminismOut(cfg, b, tier, seed, maxcases)
+	v, st, _, _ := crossProcessDeterminismOut(cfg, b, tier, seed, maxcases)
 	return v, st
 }
 
 // crossProcessDeterminismOut also hands back the shard record of a process that crashed (race
 // report, panic in a library goroutine), so that the caller can attribute the crash to the
 // case its status file names instead of to "case 0".
-func crossProcessDeterminismOut(cfg *propCfg, b *build, tier string, seed uint64, maxcases int) (*violation, map[string]int64, *shardOut) {
-	procs := []int{1, 4, 16, 2}
+func crossProcessDeterminismOut(cfg *propCfg, b *build, tier string, seed uint64, maxcases int) (*violation, map[string]int64, *shardOut, uint64) {
+	procs := []int{1, 4, 16, 2, 8, 1, 4, 16} // eight fresh processes: what differs per process (a map order) shows
 	res := make([]map[string][2]uint64, len(procs))
 	outs := make([]shardOut, len(procs))
 	var wg sync.WaitGroup
@@ -55,7 +56,7 @@ func crossProcessDeterminismOut(cfg *propCfg, b *build, tier string, seed uint64
 	for i := range procs {
 		if res[i] == nil {
 			if v, ok := classifyCrash(cfg, outs[i]); ok {
-				return &v, stats, &outs[i]
+				return &v, stats, &outs[i], 0
 			}
 			fmt.Fprintln(os.Stderr, outs[i].stderr)
 			infra("determinism pass: process with GOMAXPROCS=%d ended abnormally (exit %d)", procs[i], outs[i].exit)
@@ -81,15 +82,16 @@ func crossProcessDeterminismOut(cfg *propCfg, b *build, tier string, seed uint64
 				stats["schedule_hash_mismatch_across_gomaxprocs"]++
 			}
 			if o[0] != res[0][k][0] {
+				idx, _ := strconv.ParseUint(k, 10, 64)
 				return &violation{Kind: "nondeterministic-output", Site: "cross-process",
-					Detail: fmt.Sprintf("case %s (seed %d) produced different library output in two fresh processes (GOMAXPROCS=%d vs %d) under the same schedule", k, seed, procs[0], procs[i])}, stats, nil
+					Detail: fmt.Sprintf("case %s (seed %d) produced different library output in two fresh processes (GOMAXPROCS=%d vs %d) under the same schedule", k, seed, procs[0], procs[i])}, stats, nil, idx
 			}
 		}
 	}
 	stats["schedule_hash_mismatch_across_gomaxprocs"] += 0
 	stats["determinism_cases_compared"] = int64(len(keys))
 	stats["determinism_processes"] = int64(len(procs))
-	return nil, stats, nil
+	return nil, stats, nil, 0
 }
 
 func selftest(args []string) int {
